@@ -624,11 +624,36 @@ Fixpoint mon_svc (pre : list entry) (ops : list op) (obl : list (obs * view)) : 
   | _, _ => None
   end.
 
+(* clause 2 over time: an acknowledged registration is honoured until its lease ends.  After an answered
+   UpdateServiceGCSafePoint with TTL > 0 the storage view shows the entry (id, expiry, safe point) that was recorded: until
+   that expiry, unless the service is removed or re-registered, no other request may be told a minimum above that safe
+   point.  (Promises are dropped at every op that can legitimately remove entries: REST delete, raw writes, the
+   fault/interleaving ops.) *)
+Fixpoint mon_promise (pr : list entry) (ops : list op) (obl : list (obs * view)) : option string :=
+  match ops, obl with
+  | o :: r, (b, v) :: br =>
+      match o, b with
+      | OSvc i ttl sp now _ _, BMin _ _ msp =>
+          let others := filter (fun p => negb (text_eqb (e_text p) (text_of i))) pr in
+          if existsb (fun p => (now <=? e_exp p)%Z && (e_sp p <? msp)%Z) others
+          then Some "C15:acknowledged-registration-not-honoured"
+          else
+            let pr1 := if (0 <? ttl)%Z
+                       then match find_text (text_of i) (v_svcs v) with Some e => e :: others | None => others end
+                       else others in
+            mon_promise pr1 r br
+      | OSvc _ _ _ _ _ _, _ | OUpd _ _, _ | OBegin _ _, _ | OFinish _ _, _ | OWake _, _ | OGet, _ => mon_promise pr r br
+      | _, _ => mon_promise [] r br
+      end
+  | _, _ => None
+  end.
+
 (* the three groups of clauses are evaluated independently: a known violation of one does not hide another *)
 Definition opt_list (o : option string) : list string := match o with Some x => [x] | None => [] end.
 Definition monitor (c : case) : list string :=
   app (opt_list (mon_stored GAbsent (fst c) (snd c)))
-      (app (opt_list (mon_resp false false [] [] (fst c) (snd c))) (opt_list (mon_svc [] (fst c) (snd c)))).
+      (app (opt_list (mon_resp false false [] [] (fst c) (snd c)))
+           (app (opt_list (mon_svc [] (fst c) (snd c))) (opt_list (mon_promise [] (fst c) (snd c))))).
 
 Fixpoint monitor_fails_from (n : nat) (cs : list case) : list (nat * string) :=
   match cs with
